@@ -156,7 +156,7 @@ int
 SeamSmall(const char *ty)
 {
   long cases = 0;
-  for (long long n : {101LL, 102LL, 150LL, 200LL, 500LL, 1000LL, 2000LL, 5000LL, 10000LL, 20000LL}) {
+  for (long long n : {101LL, 102LL, 150LL, 199LL, 200LL, 500LL, 1000LL, 1099LL, 2000LL, 2999LL, 5000LL, 5099LL, 10000LL, 20000LL}) {
     for (int a = 0; a <= 300; ++a) {
       const double alpha = a / 100.0;
       ApproxZipfDistribution<T> d{static_cast<T>(0), static_cast<T>(n - 1), alpha};
@@ -306,7 +306,7 @@ Grid(bool thorough)
 {
   std::vector<long long> ns;
   for (long long n = 1; n <= (thorough ? 300 : 130); n += (thorough ? 1 : 7)) ns.push_back(n);
-  for (long long n : {1LL, 2LL, 3LL, 99LL, 100LL, 101LL, 102LL, 999LL, 1000LL, 1001LL, 10000LL}) ns.push_back(n);
+  for (long long n : {1LL, 2LL, 3LL, 99LL, 100LL, 101LL, 102LL, 999LL, 1000LL, 1001LL, 1099LL, 1199LL, 1999LL, 10000LL}) ns.push_back(n);   // incl. bin counts just below a multiple of the 100-bin stride
   if (thorough) for (long long n : {100000LL, 1000000LL, 4000000LL}) ns.push_back(n);
   std::vector<double> alphas;
   for (int a = 0; a <= 300; a += (thorough ? 1 : 25)) alphas.push_back(a / 100.0);
@@ -388,6 +388,16 @@ PurityOf(const char *cls, const char *ty, T min, T max, double alpha)
   const Dist other{min, max, alpha + 0.75};
   (void)seq(other, 7, 2000);
   if (seq(d, 42, kN) != ref) { ++failures; std::printf("REPLAY-FAIL: %s<%s>(%lld, %lld, %g): using another generator on the same thread changed this generator's output\n", cls, ty, (long long)min, (long long)max, alpha); }
+  // construction must not depend on generators built before (hidden static state keyed by a subset of the parameters)
+  {
+    const T max2 = static_cast<T>(min + (max - min) / 2 + 3);
+    const Dist same_alpha_other_range{min, max2, alpha};
+    const Dist rebuilt{min, max, alpha};   // built right after a generator with the same skew and another range
+    const Dist other_alpha{min, max2, alpha + 0.5};
+    const Dist rebuilt2{min, max, alpha};  // built right after a generator with another skew
+    if (seq(rebuilt, 42, kN) != ref || seq(rebuilt2, 42, kN) != ref) { ++failures; std::printf("REPLAY-FAIL: %s<%s>(%lld, %lld, %g): a generator built after another generator (same skew / other range, or other skew) differs from one with equal parameters built before\n", cls, ty, (long long)min, (long long)max, alpha); }
+    (void)same_alpha_other_range; (void)other_alpha;
+  }
   Dist copy{d};
   if (seq(copy, 42, kN) != ref) { ++failures; std::printf("REPLAY-FAIL: %s<%s>(%lld, %lld, %g): a copy differs from its source\n", cls, ty, (long long)min, (long long)max, alpha); }
   Dist moved{std::move(copy)};
